@@ -169,6 +169,84 @@ def _fstring_parts(js):
     return parts
 
 
+def _slice_roles(tree, named):
+    """{conventional key: (a, b)} for the module-level slice constants, found by their use in get_structure / get_space_group"""
+    meth = _methods(tree)
+    gs = meth.get("get_structure")
+    if gs is None:
+        raise ValueError("PDBFile.get_structure not found")
+
+    def slice_in(expr):
+        for c in ast.walk(expr):
+            if isinstance(c, ast.Subscript) and isinstance(c.slice, ast.Name) and c.slice.id in named:
+                return c.slice.id
+        return None
+    # public sinks of local variables: array.<attr> = L,  array.set_annotation("name", …L…),  L2 = …L…
+    sink, alias = {}, {}
+    for n in ast.walk(gs):
+        if isinstance(n, ast.Assign) and isinstance(n.targets[0], ast.Attribute) and ast.unparse(n.targets[0].value) == "array" \
+                and isinstance(n.value, ast.Name):
+            sink.setdefault(n.value.id, n.targets[0].attr)
+        if isinstance(n, ast.Call) and isinstance(n.func, ast.Attribute) and n.func.attr == "set_annotation" and len(n.args) == 2 \
+                and isinstance(n.args[0], ast.Constant):
+            for c in ast.walk(n.args[1]):
+                if isinstance(c, ast.Name):
+                    sink.setdefault(c.id, n.args[0].value)
+        if isinstance(n, ast.Assign) and isinstance(n.targets[0], ast.Name):
+            for c in ast.walk(n.value):
+                if isinstance(c, ast.Name) and c.id != n.targets[0].id:
+                    alias.setdefault(c.id, []).append(n.targets[0].id)
+
+    def role_of(local, depth=0):
+        if local in sink:
+            return sink[local]
+        if depth < 3:
+            for nxt in alias.get(local, []):
+                r = role_of(nxt, depth + 1)
+                if r:
+                    return r
+        return None
+    key = {"chain_id": "_chain_id", "res_id": "_res_id", "ins_code": "_ins_code", "res_name": "_res_name", "atom_name": "_atom_name",
+           "element": "_element", "altloc_id": "_alt_loc", "atom_id": "_atom_id", "charge": "_charge", "occupancy": "_occupancy",
+           "b_factor": "_temp_f"}
+    out = {}
+    cell_locals = {}
+    for n in ast.walk(gs):
+        if not (isinstance(n, ast.Assign) and len(n.targets) == 1):
+            continue
+        t, sl = n.targets[0], slice_in(n.value)
+        if sl is None:
+            continue
+        if any(isinstance(c, ast.Constant) and c.value == "HETATM" for c in ast.walk(n.value)):
+            out["_record"] = named[sl]
+        elif isinstance(t, ast.Subscript) and isinstance(t.slice, ast.Tuple) and isinstance(t.slice.elts[-1], ast.Constant) \
+                and t.slice.elts[-1].value in (0, 1, 2) and any(isinstance(c, ast.Call) and ast.unparse(c.func) == "float" for c in ast.walk(n.value)):
+            out[("_coord_x", "_coord_y", "_coord_z")[t.slice.elts[-1].value]] = named[sl]
+        elif isinstance(t, ast.Subscript) and isinstance(t.value, ast.Name):
+            r = role_of(t.value.id)
+            if r in key:
+                out.setdefault(key[r], named[sl])
+        elif isinstance(t, ast.Name):
+            cell_locals[t.id] = named[sl]
+    for n in ast.walk(gs):
+        if isinstance(n, ast.Call) and ast.unparse(n.func) == "vectors_from_unitcell" and len(n.args) == 6:
+            for k, a2 in zip(("_a", "_b", "_c", "_alpha", "_beta", "_gamma"), n.args):
+                if isinstance(a2, ast.Name) and a2.id in cell_locals:
+                    out[k] = cell_locals[a2.id]
+    sg = meth.get("get_space_group")
+    if sg is not None:
+        loc = {}
+        for n in ast.walk(sg):
+            if isinstance(n, ast.Assign) and isinstance(n.targets[0], ast.Name) and slice_in(n.value):
+                loc[n.targets[0].id] = named[slice_in(n.value)]
+        for n in ast.walk(sg):
+            if isinstance(n, ast.Call) and n.keywords:
+                for kw in n.keywords:
+                    if kw.arg in ("space_group", "z_val") and isinstance(kw.value, ast.Name) and kw.value.id in loc:
+                        out["_space" if kw.arg == "space_group" else "_z"] = loc[kw.value.id]
+    return out
+
+
 def gen_lean():
     from common import paths
     fsrc = open(os.path.join(paths.SRC, "biotite/structure/io/pdb/file.py")).read()
@@ -183,13 +261,26 @@ def gen_lean():
                 consts[name] = int(n.value.value)
     need = ["_record", "_atom_id", "_atom_name", "_alt_loc", "_res_name", "_chain_id", "_res_id", "_ins_code",
             "_coord_x", "_coord_y", "_coord_z", "_occupancy", "_temp_f", "_element", "_charge"]
+    # the slice constants are private names: each gets its ROLE from how the reader uses it (which public annotation / which
+    # coordinate axis / which CRYST1 parameter the sliced text ends up in), and is then listed under the role's conventional key
+    slices = _slice_roles(tree, slices)
     for k in need:
         if k not in slices:
-            raise ValueError(f"column slice {k} not found in file.py")
-    for k in ("_PDB_MAX_ATOMS", "_PDB_MAX_RESIDUES"):
-        if k not in consts:
-            raise ValueError(f"{k} not found")
+            raise ValueError(f"column slice with the role of {k} not found in file.py")
     ss = _find_func(tree, "set_structure")
+    consts = {}
+    all_consts = {n.targets[0].id: n.value.value for n in tree.body if isinstance(n, ast.Assign) and isinstance(n.targets[0], ast.Name)
+                  and isinstance(n.value, ast.Constant) and isinstance(n.value.value, int)}
+    for n in ast.walk(ss):
+        if isinstance(n, ast.Call) and ast.unparse(n.func) == "np.where" and len(n.args) == 3:
+            mods = [m for m in ast.walk(n.args[1]) if isinstance(m, ast.BinOp) and isinstance(m.op, ast.Mod)]
+            if mods:
+                r = mods[0].right
+                val = r.value if isinstance(r, ast.Constant) else all_consts.get(getattr(r, "id", None))
+                consts["_PDB_MAX_RESIDUES" if "res_id" in ast.unparse(n.args[2]) else "_PDB_MAX_ATOMS"] = val
+    for k in ("_PDB_MAX_ATOMS", "_PDB_MAX_RESIDUES"):
+        if not isinstance(consts.get(k), int):
+            raise ValueError(f"the wrap limit with the role of {k} was not found in set_structure")
     # Everything below is found by *shape*, not by the names of local variables, so renaming a local stays quiet;
     # fields get role names by their position in the sum.
     first = second = None
